@@ -503,7 +503,7 @@ func runC14Late(c *Ctx) {
 	root, _ := filepath.Abs(filepath.Join(c.WorkDir, "c14late"))
 	os.MkdirAll(root, 0o755)
 	knut, _ := filepath.Abs(c.KnutBin)
-	n := c.N(64, 1600)
+	n := c.N(64, 800)
 	var idx []int
 	for i := 0; i < n; i++ {
 		if all || c.Want("late", i) {
